@@ -1,9 +1,11 @@
 From Coq Require Import Extraction ExtrOcamlBasic QArith Qabs Qround ZArith NArith.
 From SF Require Import Base.GeomAST Model.Measure Model.MeasureScale Model.MeasureOracle Proofs.Measure_slab.
+From SF Require Import Model.MeasureMoments Proofs.Measure_moments.
 Extraction Language OCaml.
 Extraction "model.ml"
   geom_area geom_length geom_centroid centroid_outcome geom_rev geom_force geom_tr geom_2d translate scale
   slab_hypotheses slab_area
+  poly_moments rings_nonzero mpoly_moments mpoly_hypotheses
   is_empty hdim geom_closed geom_map xy_add xy_scale Qinv
   f64_to_Q f64_or0 xy_finite geom_of_bits sqrt_lo sqrt_hi sqrt_lo_scaled sqrt_hi_scaled unscale q_close q_between xy_close xy_red magnitude affine nonlinear
   poly_lattice pick_ring2 pick_poly2 pick_set2 rings_disjoint ring_B_gcd ring_B_count ring_I
